@@ -252,11 +252,9 @@ func (s *SIP) DecodeFromBytes(data []byte, df gopacket.DecodeFeedback) error {
 	var offset int
 	var eoh = false // track End Of Headers
 
-	// s may be a zero value that was not created by NewSIP
-	if s.Headers == nil {
-		s.Headers = make(map[string][]string)
-		s.contentLength = -1
-	}
+	// s may be a zero value that was not created by NewSIP, or it may
+	// hold the values of a previously decoded packet
+	*s = SIP{Headers: make(map[string][]string), contentLength: -1}
 
 	// Iterate on all lines of the SIP Headers
 	// and stop when we reach the SDP (aka when the new line
